@@ -13,7 +13,32 @@ KEYCHARS = "abcdefghijklmnopqrstuvwxyzABCXYZ0123456789_-. /:;,!?*+<>[]{}|~^%$#@&
 VALCHARS = KEYCHARS + "==="
 
 
+A4 = (bytes((10, 0, 0, 1)), bytes((239, 1, 2, 3)))
+A6 = (bytes(15) + b"\x01", bytes.fromhex("ff0e0000000000000000000000000101"))
+
+
+def gen_sibling(rng):
+    """options from tiny pools: two options that agree in every field but one (the type, a single value, the presence
+    of '=') are frequent, inside one message and across the messages one process handles"""
+    r = rng.random()
+    if r < 0.35:
+        return ("ip4", rng.choice(IP4_TYPES), rng.choice(A4), rng.choice((6, 17)), rng.choice((30490, 30500)))
+    if r < 0.6:
+        return ("ip6", rng.choice(IP6_TYPES), rng.choice(A6), rng.choice((6, 17)), rng.choice((30490, 30500)))
+    if r < 0.7:
+        return ("lb", rng.choice((0, 1)), rng.choice((0, 1)))
+    if r < 0.9:
+        items = tuple(rng.choice((("a", None), ("a", ""), ("a", "1"), ("b", "1"), ("a", "=1"), ("ab", None)))
+                      for _ in range(rng.choice((1, 1, 2))))
+        return ("cfg", items)
+    # an unknown type carrying exactly the body of an endpoint option
+    body = bytes(1) + rng.choice(A4) + bytes(1) + bytes((rng.choice((6, 17)),)) + rng.choice((30490, 30500)).to_bytes(2, "big")
+    return ("unk", rng.choice(UNKNOWN_TYPES[:3]), body[1:] if rng.random() < 0.5 else body)
+
+
 def gen_option(rng, uniq=None):
+    if rng.random() < 0.3:
+        return gen_sibling(rng)
     r = rng.random()
     if r < 0.22:
         proto = rng.choice((6, 17, 17, 0, 1, 255, rng.randrange(256)))
